@@ -214,3 +214,8 @@ def run(ctx):
             r.min_instances = 0
     if not w[1]:
         ctx.reconcile(ctx.rules[n0:], lambda c: "plugins/touch.py" in c and "memo" not in c and "cache" not in c, w, "src/gwf/plugins/touch.py::touch", "src/gwf/plugins/touch.py:1")
+    # "so `gwf status` reports it completed": status must read the time stamps where touch writes them.  Path.touch() / os.utime follow symbolic links
+    # (they stamp the file a path denotes), so the reader has to stat through links as well - and see one snapshot per command
+    r6 = ctx.rule("R6", "the status that follows reads the modification times touch wrote: the file a path denotes (symlinks followed), existence and time from one stat")
+    from .shared import import_rules
+    import_rules(ctx, r6, "C01", only={"R6"})
